@@ -44,7 +44,10 @@ ASSUMPTIONS = [
     "generic field signature and is a violation",
     "float64 (jax_enable_x64) relative tolerance 1e-6 of max(1,|field|_inf) for closed-form quantities; 1e-4 for quantities "
     "that depend on the iterative constraint solver (both solvers run to tolerance 1e-12, <=100/400 iterations); the "
-    "float32 subsample uses 2e-3 / 3e-2; in float32 the next velocity/position of Euler and implicitfast (which recompute the "
+    "float32 subsample uses 2e-3 / 3e-2 relative to the operands: efc_aref relative to |B||J||qvel| + |K*I*(pos-margin)| (also for "
+    "CONTACT rows in float64, whose Jacobian rows only agree to the contact-frame tolerance 2e-3: witness capsule-capsule friction row, "
+    "aref error 3e-3 of |aref| but 1e-4 of B|J||qvel|), "
+    "force/torque/accelerometer/touch sensors relative to the gross constraint + actuator force entering them; in float32 the next velocity/position of Euler and implicitfast (which recompute the "
     "acceleration from qfrc_smooth + qfrc_constraint) additionally gets the operand-scaled allowance h*|M^-1|_inf*2e-3*max_j "
     "sum_i |J_ij||efc_force_i|: J^T efc_force cancels gross constraint forces that a float32 minimiser resolves to about "
     "sqrt(eps32) only (witness: gross 1.2e4, error 7.9 = 6e-4 of it, x64 agrees to 1e-6); float64 comparisons are unchanged",
@@ -52,11 +55,19 @@ ASSUMPTIONS = [
     "constraint rows are compared as sets matched on (type, Jacobian row, pos, D, aref)",
     "put_model raising NotImplementedError is the documented gate (doc/mjx.rst Feature Parity: 'MJX will raise an "
     "exception if asked to copy an mjModel to the device that references unsupported features') and is counted, not judged",
+    "implicitfast: the C engine reinstates the gyroscopic derivative for standalone free bodies (computation/index.rst), MJX has no "
+    "such term and doc/mjx.rst is silent: a next-state difference is counted as documented_difference_not_judged[...] only if both "
+    "engines agree again (same state) after the free bodies' inertia is made spherical in both models (counterfactual)",
     "implicitfast: the C engine restricts the velocity-derivative matrix D to the sparsity pattern of M (computation/index.rst, "
     "Integrators: 'This restriction will exclude damping in tendons which connect bodies that are on different branches of the "
     "kinematic tree'), MJX's dense update keeps the full D. A next-state difference is counted as "
     "documented_difference_not_judged[...] only if C's update recomputed WITH the excluded entries (from C's own actuator moments "
     "and tendon Jacobians; formula validated to reproduce mj_implicit to 1e-9) reproduces MJX's next state at the field tolerance",
+    "NOT GENERATED (counted as not_generated[...]): implicitfast with a free-joint body in the random profiles (it stays in the "
+    "capsule-capsule profile, which has no actuators): the check's recomputation of C's implicitfast update does not validate on "
+    "such models, so the known qDeriv findings could not be confirmed there; actearly together with exactly one of the spring/damper flags disabled; RK4 "
+    "together with connect/weld equalities and exactly one of the spring/damper flags disabled - the known differences of these "
+    "combinations could not be neutralised jointly and a difference there could not be confirmed",
     "contact-set equality is judged only for geom pairs whose narrow phase is the same closed-form algorithm in both engines "
     "(calibrated empirically on the unchanged tree: plane-sphere, plane-capsule, plane-ellipsoid, sphere-sphere, "
     "sphere-capsule, capsule-capsule). Pairs involving boxes (doc/mjx.rst: 'BOX is implemented as a mesh': SAT/clipping "
@@ -304,6 +315,12 @@ def _compare_efc(R, m, dc, dxf, tol, tol_s, P, cmatch=None):
             if k in SKEW:
                 continue
             e = _relerr(xv[k][bj], cv[k][i])
+            if k == "efc_aref" and (not R.x64 or (tol >= TOL_CONTACT_GEOM and int(dc.efc_type[i]) in contact_types)):
+                # float32, and contact rows in float64 (whose Jacobian rows carry the contact-frame tolerance TOL_CONTACT_GEOM):
+                # aref = -B*(J.qvel) - K*I*(pos-margin) is compared relative to the terms being summed
+                KB = np.array(dc.efc_KBIP).reshape(-1, 4)[i]
+                scale = abs(KB[1]) * float(np.abs(J[i]) @ np.abs(np.array(dc.qvel))) + abs(KB[0] * KB[2] * (cv["efc_pos"][i] - cv["efc_margin"][i]))
+                e = abs(xv[k][bj] - cv[k][i]) / max(1.0, abs(cv[k][i]), scale)
             P.note_max("relerr_" + k, e)
             if e > tol:
                 problems.append((k, dict(meta, relerr=e, tol=tol, c=float(cv[k][i]), mjx=float(xv[k][bj]))))
@@ -371,8 +388,22 @@ def _compare_state(R, m, mx, dcf, dcs, dxf, dxs, x64, P, smap, integ):
         problems += _compare_efc(R, m, dcf, dxf, max(tol, TOL_CONTACT_GEOM) if nact else tol, tol_s, P, cmatch=_CMATCH["last"])
     xsens = np.asarray(dxf.sensordata)
 
+    gross = 0.0
+    if not x64 and int(dcf.nefc):
+        # float32: force / torque / accelerometer / touch read sums of constraint forces: compared relative to the gross
+        # generalized constraint force entering them (max_j sum_i |J_ij||efc_force_i|), not to the cancelled net value
+        Jg = np.zeros((dcf.nefc, m.nv))
+        if mj.mj_isSparse(m):
+            mj.mju_sparse2dense(Jg, dcf.efc_J, dcf.efc_J_rownnz, dcf.efc_J_rowadr, dcf.efc_J_colind)
+        else:
+            Jg = np.array(dcf.efc_J).reshape(-1, m.nv)[:dcf.nefc]
+        gross = float((np.abs(Jg).T @ np.abs(np.array(dcf.efc_force))).max()) + float(np.abs(np.array(dcf.qfrc_actuator)).max() if m.nv else 0.0)
+
     def sens(i, nm, stage, adr, dim, t):
         e = _relerr(xsens[adr:adr + dim], dcf.sensordata[adr:adr + dim])
+        if gross and nm in ("force", "torque", "accelerometer", "touch"):
+            e = float(np.max(np.abs(xsens[adr:adr + dim] - dcf.sensordata[adr:adr + dim])) /
+                      max(1.0, float(np.max(np.abs(dcf.sensordata[adr:adr + dim]))), gross))
         P.note_max("relerr_sensor_" + nm, e)
         if ("sensor_" + nm) not in SKEW and e > t:
             problems.append(("sensor_" + nm, {"relerr": e, "tol": t, "sensor": i, "stype": int(m.sensor_type[i]),
@@ -497,6 +528,9 @@ def check_model(R, xml, tags, states, P, x64=True, detail_base=None):
     integ = [t for t in tags if t.startswith("int:")][0]
     smap = _sensor_stage_map(R, m)
     from .. import mjxrepo
+    for t in tags:
+        if t.startswith("not_generated:"):
+            P.count("not_generated[%s]" % t[14:])
     if not gate_tags:
         for t in sorted(mjxrepo.feature_classes(tags)):
             P.count("feature[%s]" % t)
@@ -1202,6 +1236,26 @@ def _known_causes(R, m, mx, st, dcf, dcs, dxf, dxs, cf):
             "root": lambda name, det: det.get("stage") == int(mj.mjtStage.mjSTAGE_ACC) and det.get("nefc_mjx") == 0
             and allzero(det["mjx"]),
         })
+    if int(m.opt.integrator) == int(mj.mjtIntegrator.mjINT_IMPLICITFAST):
+        # documented (computation/index.rst, implicitfast: "For standalone free bodies, the dropped gyroscopic derivatives are
+        # reinstated with a local unsymmetric solve"); doc/mjx.rst is silent and MJX has no such term. Not judged ONLY IF both
+        # engines agree again when the free bodies' inertia is made spherical (gyroscopic torque w x Iw and its derivative vanish)
+        free_b = [int(m.jnt_bodyid[j]) for j in range(m.njnt) if int(m.jnt_type[j]) == int(mj.mjtJoint.mjJNT_FREE)]
+        free_b = [b for b in free_b if np.ptp(np.array(m.body_inertia[b])) > 1e-9 * max(1e-12, float(np.max(m.body_inertia[b])))]
+        spinning = any(np.any(np.array(st["qvel"], float)[int(m.body_dofadr[b]) + 3:int(m.body_dofadr[b]) + 6] != 0) for b in free_b)
+        if free_b and spinning:
+            iso = np.array(m.body_inertia, float)
+            for b in free_b:
+                iso[b] = iso[b].mean()
+
+            def c_iso(m2, iso=iso):
+                m2.body_inertia[:] = iso
+            out.append({
+                "sig": "documented:implicitfast-gyroscopic-derivative-of-free-bodies-in-C",
+                "scope": _scope(step=["qpos", "qvel"]),
+                "spec": {"c_model": c_iso,
+                         "mjx_model": lambda mx_, iso=iso: mx_.replace(body_inertia=jp.array(iso, dtype=mx_.body_inertia.dtype))},
+            })
     # 10/11. implicitfast: d(actuator force)/d(qvel) ------------------------------------------------------------------------
     if int(m.opt.integrator) == int(mj.mjtIntegrator.mjINT_IMPLICITFAST) and m.nu and not off(D.mjDSBL_ACTUATION):
         mom = np.zeros((m.nu, m.nv))
